@@ -613,9 +613,20 @@ static void run_history(Tape &t, Ctx &cx, uint64_t fail_at, int mode, uint64_t *
             {
                 S &o = r.ss[si ^ 1];
                 size_t n0 = t.coin() ? len : (len ? t.u16() % (len + 1) : 0), ol = a_str_len(o.s), n1 = t.coin() ? ol : (ol ? t.u16() % (ol + 1) : 0);
-                int got = a_str_cmp_(base, n0, a_str_ptr(o.s), n1);
+                // also: the second block inside the first string's own storage (a prefix of itself, or the same block)
+                bool self = t.u8() % 3 == 0;
+                if (self) { n1 = t.coin() ? n0 : (len ? t.u16() % (len + 1) : 0); }
+                char const *p1 = self ? base : a_str_ptr(o.s);
+                std::string const &m1 = self ? s.m : o.m;
+                int got = a_str_cmp_(base, n0, p1, n1);
                 int want = 0;
-                if (base && a_str_ptr(o.s)) { want = memcmp(s.m.data(), o.m.data(), std::min(n0, n1)); }
+                if (base && p1) { want = memcmp(s.m.data(), m1.data(), std::min(n0, n1)); }
+                if (self)
+                {
+                    int g2 = a_str_cmpn(s.s, base, n1);
+                    int w2 = (len > n1) - (len < n1);
+                    VP_CHECK(cx, (g2 > 0) == (w2 > 0) && (g2 < 0) == (w2 < 0), "str:cmp", "a_str_cmpn of a string of %zu bytes with the first %zu bytes of its own storage returned %d", len, n1, g2);
+                }
                 if (!want) { want = (n0 > n1) - (n0 < n1); }
                 VP_CHECK(cx, (got > 0) == (want > 0) && (got < 0) == (want < 0), "str:cmp", "a_str_cmp_ on prefixes of %zu / %zu bytes returned %d, byte-wise order says %d", n0, n1, got, want);
             }
